@@ -115,15 +115,17 @@ def t_buffer_direct(E):
         E.oblige(f.qualname + '/ensures.returns_a_BufferAsyncCalls', z3.BoolVal(ok))
         if not ok:
             return
-        E.oblige(f.qualname + '/ensures.timeout_option_takes_effect', z3.BoolVal(r.fields.get('timeout') is t))
-        E.oblige(f.qualname + '/ensures.wraps_the_given_function', z3.BoolVal(r.fields.get('func') is func))
+        E.oblige(f.qualname + '/ensures.timeout_option_takes_effect', z3.BoolVal(r.fields.get('timeout') is t),
+                 props={'C15', 'C08'})
+        E.oblige(f.qualname + '/ensures.wraps_the_given_function', z3.BoolVal(r.fields.get('func') is func),
+                 props={'C15', 'C03'})
         tasks = E.w.get('tasks_created', [])
         # exactly one background task per instance, running _waiter (C08: serial calls)
         coros = [x.fields['coro'] for x in tasks]
         one = len(tasks) == 1 and isinstance(coros[0], VCoro) and coros[0].func.qualname.endswith(
             'BufferAsyncCalls._waiter')
         E.oblige(MOD + '.BufferAsyncCalls.__init__/ensures.exactly_one_background_task_running__waiter',
-                 z3.BoolVal(bool(one)), props={'C15', 'C08'})
+                 z3.BoolVal(bool(one)), props={'C15', 'C08', 'C03', 'C07'})
         if one:
             E.oblige(MOD + '.BufferAsyncCalls.__init__/ensures.task_runs_on_the_instances_loop',
                      z3.BoolVal(tasks[0].fields['loop'] is r.fields.get('loop')), props={'C15', 'C08'})
@@ -214,14 +216,15 @@ def t_batcher_direct(E):
         E.oblige(W + '/ensures.registry_is_weak_keyed_by_the_running_loop',
                  z3.BoolVal(st.get('registry') is not None and len(reg) == 2))
         for b in created:
-            E.oblige(W + '/ensures.batcher_wraps_the_decorated_function', z3.BoolVal(b.fields['func'] is func))
+            E.oblige(W + '/ensures.batcher_wraps_the_decorated_function', z3.BoolVal(b.fields['func'] is func),
+                     props={'C15', 'C04'})
             for p in fn.args.kwonlyargs:
                 E.oblige('%s/ensures.option_reaches_the_batcher[%s]' % (W, p.arg),
                          z3.BoolVal(b.fields['kw'].get(p.arg) is opts[p.arg]), props=oprops(p.arg),
                          detail='AsyncBackgroundBatcher(...) must be constructed with the decorator parameter of the same name')
         for (b, a, k) in called:
             E.oblige(W + '/ensures.forwards_argument_and_key', z3.BoolVal(len(a) == 1 and a[0] is arg and
-                                                                          k.get('key') is key))
+                                                                          k.get('key') is key), props={'C15', 'C04', 'C11'})
     E.run_paths(body)
 
 
@@ -270,7 +273,7 @@ def t_batcher_init(E):
         tasks = E.w.get('tasks_created', [])
         one = len(tasks) == 1 and isinstance(tasks[0].fields['coro'], VCoro) and \
             tasks[0].fields['coro'].func.qualname.endswith('._processing_loop')
-        E.oblige(f.qualname + '/ensures.exactly_one_processing_loop_task', z3.BoolVal(bool(one)), props={'C10', 'C15'})
+        E.oblige(f.qualname + '/ensures.exactly_one_processing_loop_task', z3.BoolVal(bool(one)), props={'C10', 'C15', 'C04'})
         E.oblige(f.qualname + '/ensures.bound_to_the_running_loop',
                  z3.BoolVal(isinstance(F.get('_loop'), VVal) and str(F['_loop'].t) == 'running_loop'),
                  props={'C15'})
@@ -280,7 +283,7 @@ def t_batcher_init(E):
 
 TASKS = {
     'decorators.options_forms': (t_options_forms, {'C15', 'C08', 'C10', 'C11', 'C14'}),
-    'decorators.buffer_direct': (t_buffer_direct, {'C15', 'C08', 'C07'}),
-    'decorators.batcher_direct': (t_batcher_direct, {'C15', 'C10', 'C11'}),
+    'decorators.buffer_direct': (t_buffer_direct, {'C15', 'C08', 'C07', 'C03'}),
+    'decorators.batcher_direct': (t_batcher_direct, {'C15', 'C10', 'C11', 'C04'}),
     'decorators.batcher_init': (t_batcher_init, {'C15', 'C10', 'C11', 'C04', 'C09'}),
 }
